@@ -74,7 +74,7 @@ def one_guard(fx, eng, rep, m, g):
     for f in fns:
         rep.saw_fn(f)
     rel_key = m.release[g]
-    rel_fn = fx.functions[rel_key]
+    rel_fn = fx.functions[rel_key] if rel_key is not None else None
 
     # ---- G.CTOR: default state owns nothing
     fo = next(f for f in rec['fields'] if f['name'] == own)
@@ -153,9 +153,18 @@ def body(fx, rep, m, g, f, rule, ownv, rel_key, rel_fn, assign):
                           'a path through the function does not test the ownership field (%s)' % own)
             continue
         seen[t] += 1
-        rel_calls = [e for e in p.events if e['kind'] == 'call' and e.get('callee') == rel_key]
-        other_calls = [e for e in p.events if (e['kind'] == 'call' and e.get('record') == m.rec_name and e.get('callee') != rel_key) or
-                       (e['kind'] == 'atomic' and e['op'] != 'load')]
+        if rel_key is None:
+            # the release write is in this function itself: a write to the word of the guard's lock (entry value of the pointer)
+            rel_calls = [e for e in p.events if e['kind'] == 'atomic' and e['op'] != 'load' and m.lock_obj_kind(e['obj'], f) == 'LOCK']
+            for e in rel_calls:
+                e.setdefault('objptr', S('this->' + ptr))
+                e.setdefault('args', [])
+            other_calls = [e for e in p.events if (e['kind'] == 'call' and e.get('record') == m.rec_name) or
+                           (e['kind'] == 'atomic' and e['op'] != 'load' and e not in rel_calls)]
+        else:
+            rel_calls = [e for e in p.events if e['kind'] == 'call' and e.get('callee') == rel_key]
+            other_calls = [e for e in p.events if (e['kind'] == 'call' and e.get('record') == m.rec_name and e.get('callee') != rel_key) or
+                           (e['kind'] == 'atomic' and e['op'] != 'load')]
         if other_calls:
             e = other_calls[0]
             rep.violation(rule, '%s touches the lock besides the release' % sname, '%s:%s' % (f['file'], e.get('line')),
@@ -181,7 +190,7 @@ def body(fx, rep, m, g, f, rule, ownv, rel_key, rel_fn, assign):
                     if first_asg is not None and first_asg < e['seq']:
                         good, why = False, 'members overwritten before the old grant is released'
             rep.check(good, rule, '%s owning path releases exactly once' % sname, loc,
-                      'one call to %s on this->%s' % (short(rel_fn['name']), ptr), why)
+                      'one %s on this->%s' % ('call to ' + short(rel_fn['name']) if rel_fn else 'release write', ptr), why)
         else:
             rep.check(not rel_calls, rule, '%s non-owning path releases nothing' % sname, loc, 'no release call', '%d release call(s) on the empty path' % len(rel_calls))
         if assign:
